@@ -178,6 +178,12 @@ def build_util():
     return bins['util']
 
 
+def build_single(name, source, flags=None):
+    """one sanitizer-instrumented binary from harness/<source>"""
+    bins = build_binaries(name, [os.path.join(HARNESS, source)], [(name, [])], flags=flags)
+    return bins[name]
+
+
 def run_proc(cmd, stdin_data=None, timeout=3600, env_extra=None):
     env = dict(os.environ)
     env.update(SAN_ENV)
@@ -214,7 +220,11 @@ def parse_stream(stdout, rc, stderr):
             k, v = body.rsplit(' ', 1)
             s.stats[k] = s.stats.get(k, 0) + int(v)
     if rc != 0:
-        s.crash = (rc, (stderr[:6000] + '\n...\n' + stderr[-1500:]) if len(stderr) > 7500 else stderr, s.m[-1] if s.m else '')
+        last = s.m[-1] if s.m else ''
+        cur = [l for l in stderr.split('\n') if l.startswith('CURRENT-INPUT: ')]
+        if cur:
+            last = cur[-1][len('CURRENT-INPUT: '):]
+        s.crash = (rc, (stderr[:6000] + '\n...\n' + stderr[-1500:]) if len(stderr) > 7500 else stderr, last)
     return s
 
 
@@ -227,6 +237,18 @@ def run_shards(bins, args, timeout=3600):
         return parse_stream(out, rc, err)
     with cf.ThreadPoolExecutor(max_workers=JOBS) as ex:
         return list(ex.map(one, bins))
+
+
+def run_sharded(binary, args, nshard, timeout=3600):
+    """the same binary `nshard` times, each with --shard i --nshard n"""
+    def one(i):
+        try:
+            rc, out, err = run_proc([binary] + args + ['--shard', str(i), '--nshard', str(nshard)], timeout=timeout)
+        except subprocess.TimeoutExpired:
+            return parse_stream('', 124, 'timeout')
+        return parse_stream(out, rc, err)
+    with cf.ThreadPoolExecutor(max_workers=JOBS) as ex:
+        return list(ex.map(one, range(nshard)))
 
 
 def run_driver(driver, mlines):
